@@ -19,6 +19,9 @@ def budget(tier):
 
 def gen(rng, index, tier):
     raw, meta = lib.gen_dataset(rng, nmax=7 if tier == "quick" else 10, mmax=5, big=0.06, big_nmax=200, big_hi=0.5)
+    if tier == "thorough" and rng.random() < 0.0002:
+        # a handful of instances of several hundred elements (thresholds such as 256, 512, 1000 in a "fast path")
+        raw, meta = lib.gen_dataset(rng, n_exact=rng.choice([300, 600, 1100]), mmax=6)
     case = {"dataset": raw, "scheme": common.family_scheme(rng), "use_bid": rng.random() < 0.5, "meta": meta,
             "perm_seed": rng.randint(0, 10 ** 6)}
     if rng.random() < 0.12:
